@@ -12,7 +12,7 @@ use crate::reference::{
 use crate::rng::{mix, Rng};
 use crate::run::{run_case, Ctor, Draw, Item, IterHist, Load, RKind, RunOut, StaticHist, StaticItem};
 
-pub const N_FAULT_KINDS: usize = 27;
+pub const N_FAULT_KINDS: usize = 28;
 pub const FAULT_NAMES: [&str; N_FAULT_KINDS] = [
     "-",
     "F1_driver_error_in_constructor",
@@ -41,6 +41,7 @@ pub const FAULT_NAMES: [&str; N_FAULT_KINDS] = [
     "F24_second_device_with_other_layout_on_same_test",
     "F25_static_rows_requested_before_dynamic_run",
     "F26_device_lists_an_output_the_test_does_not_know",
+    "F27_caller_spreads_parse_construct_next_vars_over_os_threads",
 ];
 
 #[derive(Clone, Debug)]
@@ -663,6 +664,7 @@ fn corpus_case(prop: Prop, rng: &mut Rng) -> Option<Case> {
         continue_after_error: false,
         source_override: Some(t.source.clone()),
         dig_file: Some(t.file.clone()),
+        thread_seed: None,
     };
     if matches!(prop, Prop::C02 | Prop::C10) && rng.chance(1, 3) {
         let probe = run_case(&case);
@@ -752,10 +754,22 @@ fn huge_env_case(rng: &mut Rng) -> Case {
         continue_after_error: false,
         source_override: None,
         dig_file: None,
+        thread_seed: None,
     }
 }
 
 pub fn generate(prop: Prop, run_seed: u64, tier: Tier) -> Case {
+    let mut case = generate_on_one_thread(prop, run_seed, tier);
+    // F27: one case in twelve is executed by a multi-threaded caller. Drawn from a stream of
+    // its own so that the cases themselves are the same as without this fault kind.
+    let t = mix(&[run_seed, 0x7153_AD27]);
+    if t % 12 == 0 && case.program.stmts.len() <= 20_000 {
+        case.thread_seed = Some(mix(&[t, 1]));
+    }
+    case
+}
+
+fn generate_on_one_thread(prop: Prop, run_seed: u64, tier: Tier) -> Case {
     let mut rng = Rng::new(run_seed);
     let sub = rng.next_u64() % 60;
     if tier == Tier::Thorough
@@ -1060,6 +1074,19 @@ pub fn reference_for(case: &Case, out: &RunOut, iter_idx: usize) -> RefRun {
 }
 
 fn count_faults(case: &Case, out: &RunOut, f: &mut [u32; N_FAULT_KINDS]) {
+    if case.thread_seed.is_some() {
+        // actions (constructor, next()) that ran on another OS thread than the caller's own
+        for (i, it) in out.iters.iter().enumerate() {
+            if it.constructed && case.thread_for(200 + i as u64, 0) != 0 {
+                f[27] += 1;
+            }
+            for j in 0..it.steps.len() {
+                if case.thread_for(i as u64, j as u64) != 0 {
+                    f[27] += 1;
+                }
+            }
+        }
+    }
     for (di, it) in out.iters.iter().enumerate() {
         let Some(dut) = case.duts.get(di) else { continue };
         if dut.overrides_write {
